@@ -43,6 +43,8 @@ def _plan(draw, max_steps):
             it["p"] = draw(st.sampled_from([None, 1, "v"]))
         if draw(st.integers(0, 2)) == 0:
             it["geo"] = draw(st.sampled_from([{"x": 1}, {"x": 2, "tags": ["a"]}, {"inner": {"y": 0}}]))
+        if draw(st.integers(0, 3)) == 0:
+            it["bx"] = draw(st.sampled_from([1, 2]))        # becomes a Box(v): an instance of a user class (hashable, yet mutable)
         items.append(it)
     items2 = []
     for i in range(draw(st.integers(0, 4))):
@@ -127,7 +129,19 @@ def nontrivial(plan):
     return hit
 
 
+class Box:
+    """a value of a user-defined class: hashable by identity like every plain object, and mutable"""
+    def __init__(self, v):
+        self.v = v
+
+
+def _boxed(item):
+    return {k: (Box(v) if k == "bx" else v) for k, v in item.items()}
+
+
 def _plain(x):
+    if isinstance(x, Box):
+        return ("Box", x.v)
     if isinstance(x, dict):
         return {k: _plain(v) for k, v in x.items()}
     if isinstance(x, (list, tuple)):
@@ -155,7 +169,9 @@ def check(plan, ctx):
     _BY[0] = ("k", "kk") if plan.get("tuple_by") else "k"
     if plan.get("tuple_by"):
         ctx.cls("joins_by_key_name_pairs")
-    root = cls([dict(x) for x in plan["items"]])
+    root = cls([_boxed(x) for x in plan["items"]])
+    if any("bx" in x for x in plan["items"]):
+        ctx.cls("items_hold_instances_of_a_user_class")
     root2 = cls([dict(x) for x in plan.get("items2", [])])
     pool = [Node(root, None, {0}, 0), Node(root2, None, {1}, 0)]
     next_origin = [2]
@@ -364,6 +380,8 @@ def _apply(op, x, y, a, fresh_item):
                 g["x"] = 100 + a              # edits the nested dict in place
                 if isinstance(g.get("tags"), list):
                     g["tags"].append(a)
+            if isinstance(it.get("bx"), Box):
+                it["bx"].v = 100 + a          # edits the object in place
             return a
         return x.modify(w=touch)
     if op == "modify_if": return x.modify_if(lambda it: it["k"] == a % 2, k=lambda it: 5 + a)
@@ -373,7 +391,12 @@ def _apply(op, x, y, a, fresh_item):
     if op == "fill": return x.fill_missing_keys(p=a)
     if op == "fill_all": return x.fill_missing_keys()
     if op == "inner_join": return x.inner_join(y, _BY[0])
-    if op == "left_join": return x.left_join(y, _BY[0])
+    if op == "left_join":
+        if a % 3 == 0:
+            # the right-hand list carries nothing but the join key (a fresh list, not one of the pool)
+            yk = "kk" if _BY[0] != "k" else "k"
+            y = di.ListOfDicts([{yk: it[yk]} for it in list.__iter__(y)])
+        return x.left_join(y, _BY[0])
     if op == "pluck": return x.pluck("_id")
     if op == "keys": return list(x.keys())
     if op == "to_json": return x.to_json()
